@@ -8,18 +8,15 @@ import (
 	"bytes"
 	"encoding/json"
 	"os"
+	"path/filepath"
 )
 
 // EncodeJSONFile 编码 JSON 文件
+//
+// The content is written to a temporary file beside path and renamed over it,
+// so a crash at any moment leaves either the complete previous file or the
+// complete new one, never a truncated or empty file.
 func EncodeJSONFile(path string, obj interface{}) error {
-	f, err := os.OpenFile(path, os.O_CREATE|os.O_TRUNC|os.O_WRONLY, os.ModePerm)
-	if err != nil {
-		return err
-	}
-
-	defer f.Close()
-	verifCrash("opened", f, nil)
-
 	var formatted bytes.Buffer
 	body, err := json.Marshal(obj)
 	if err != nil {
@@ -30,15 +27,40 @@ func EncodeJSONFile(path string, obj interface{}) error {
 		return err
 	}
 
+	tmp := path + ".tmp"
+	f, err := os.OpenFile(tmp, os.O_CREATE|os.O_TRUNC|os.O_WRONLY, os.ModePerm)
+	if err != nil {
+		return err
+	}
+	verifCrash("opened", f, nil)
+
 	verifCrash("mid-write", f, formatted.Bytes())
 	if _, err := f.Write(formatted.Bytes()); err != nil {
+		f.Close()
+		os.Remove(tmp)
 		return err
 	}
 	verifCrash("written", f, nil)
 	if err := f.Sync(); err != nil {
+		f.Close()
+		os.Remove(tmp)
 		return err
 	}
 	verifCrash("synced", f, nil)
+	if err := f.Close(); err != nil {
+		os.Remove(tmp)
+		return err
+	}
 
+	if err := os.Rename(tmp, path); err != nil {
+		os.Remove(tmp)
+		return err
+	}
+
+	// make the rename itself durable (best effort)
+	if dir, err := os.Open(filepath.Dir(path)); err == nil {
+		dir.Sync()
+		dir.Close()
+	}
 	return nil
 }
